@@ -27,7 +27,7 @@ func TestMain(m *testing.M) { fx.Main(m, "C15") }
 var allOps = []string{"Login", "NewProxy", "CloseProxy", "Ping", "NewWorkConn", "NewUserConn"}
 
 // outcomes of one plugin for one consultation
-var outcomes = []string{"accept", "accept", "accept", "modify", "modify", "reject", "http500", "http404", "http302", "reset", "badjson", "wrongtypes", "emptybody", "truncated"}
+var outcomes = []string{"accept", "accept", "accept", "modify", "modify", "reject", "reject-unchange", "http500", "http404", "http302", "reset", "badjson", "wrongtypes", "emptybody", "truncated"}
 
 type PluginSpec struct {
 	Ops     []string          `json:"ops"`
@@ -127,6 +127,8 @@ func (st *stub) handle(w http.ResponseWriter, r *http.Request) {
 		_, _ = w.Write(b)
 	case "reject":
 		_, _ = w.Write([]byte(`{"reject":true,"reject_reason":"no"}`))
+	case "reject-unchange":
+		_, _ = w.Write([]byte(`{"reject":true,"reject_reason":"no","unchange":true}`))
 	case "http500":
 		w.WriteHeader(500)
 		_, _ = w.Write([]byte(`{"reject":false,"unchange":true}`))
